@@ -63,6 +63,7 @@ type thread struct {
 	rok      bool
 	selIdx   int
 	daemon   bool
+	exited   chan struct{} // closed when the thread's goroutine has unwound
 	demoted  int // >0: this thread was delayed (preempted by a deviation); it runs again only when no undelayed thread can
 }
 
@@ -128,6 +129,7 @@ type exec struct {
 	ticks      int
 	demoteSeq  int
 	keep       map[uintptr]any
+	finT       *thread // the thread in which the execution ended
 }
 
 var ex *exec
@@ -171,19 +173,30 @@ func Run(opt Options, body func()) *Result {
 	}
 	watch.Stop()
 	e.dead.Store(true)
-	for _, t := range e.threads {
+	// Threads unwind (runtime.Goexit, running their deferred calls) ONE AT A TIME: in dead mode the lock shims are no-ops,
+	// so deferred code of two threads touching the same map must not run concurrently. The thread that ended the
+	// execution is already unwinding; it goes first.
+	unwind := time.NewTimer(60 * time.Second)
+	waitExit := func(t *thread) {
+		select {
+		case <-t.exited:
+		case <-unwind.C:
+			dumpAndDie(e, "UNCONTROLLED-BLOCK: threads did not unwind in dead mode")
+		}
+	}
+	if e.finT != nil {
+		waitExit(e.finT)
+	}
+	for i := 0; i < len(e.threads); i++ { // (a deferred call may still start threads: dead mode refuses, the slice is stable)
+		t := e.threads[i]
 		select {
 		case t.gate <- struct{}{}:
 		default:
 		}
+		waitExit(t)
 	}
-	c := make(chan struct{})
-	go func() { e.wg.Wait(); close(c) }()
-	select {
-	case <-c:
-	case <-time.After(60 * time.Second):
-		dumpAndDie(e, "UNCONTROLLED-BLOCK: threads did not unwind in dead mode")
-	}
+	unwind.Stop()
+	e.wg.Wait()
 	ex = nil
 	e.res.Steps = e.steps
 	return e.res
@@ -197,7 +210,7 @@ func dumpAndDie(e *exec, msg string) {
 }
 
 func (e *exec) newThread(parent *thread, name string, f func()) *thread {
-	t := &thread{id: len(e.threads), gate: make(chan struct{}, 1), name: name, kind: OpStart, enabled: func() bool { return true }}
+	t := &thread{id: len(e.threads), gate: make(chan struct{}, 1), exited: make(chan struct{}), name: name, kind: OpStart, enabled: func() bool { return true }}
 	if parent != nil {
 		parent.nchild++
 		t.pid = mix(parent.pid, parent.nchild, 0x7468)
@@ -209,6 +222,7 @@ func (e *exec) newThread(parent *thread, name string, f func()) *thread {
 	e.wg.Add(1)
 	go func() {
 		defer e.wg.Done()
+		defer close(t.exited)
 		defer func() {
 			if r := recover(); r != nil {
 				if !e.dead.Load() {
@@ -234,6 +248,7 @@ func (e *exec) newThread(parent *thread, name string, f func()) *thread {
 
 func (e *exec) finish(status, detail string) {
 	e.finOnce.Do(func() {
+		e.finT = e.cur
 		e.res.Status = status
 		e.res.Detail = detail
 		if status == "deadlock" {
